@@ -1,6 +1,6 @@
 (* Decoding of C14 cases and verdicts. *)
 From Coq Require Import List NArith Bool.
-From FS Require Import Sx Model.Path Model.Stat Model.Tree Model.Converge Model.Fs Model.RootPath Model.CopyFs Glue.C03G.
+From FS Require Import Sx Model.Path Model.Stat Model.Tree Model.Converge Model.Fs Model.RootPath Model.CopyFs Model.Pattern Model.FilterWalk Model.CopierSel Glue.C03G.
 Import ListNotations.
 Open Scope bool_scope.
 
@@ -125,14 +125,34 @@ Definition dec_opt2 (s : sx) : option (option (N * N)) :=
 Definition dec_opt1 (s : sx) : option (option N) :=
   match s with SL [] => Some None | SL [SN a] => Some (Some a) | _ => None end.
 
-Definition dec_copts (s : sx) : option (copts * bool) :=
-  match s with
-  | SL [fl; wi; ar; dc; ch; ut; mo] =>
+Definition dec_copts7 (fl wi ar dc ch ut mo : sx) : option (copts * bool) :=
     fl <- sx_bool fl ;; wi <- sx_bool wi ;; ar <- sx_bool ar ;; dc <- sx_bool dc ;;
     ch <- dec_opt2 ch ;; ut <- dec_opt1 ut ;; mo <- dec_opt1 mo ;;
     Some ({| o_follow := fl; o_always_replace := ar; o_dir_contents := dc;
-             o_chown := ch; o_utime := ut; o_mode := mo |}, wi)
+             o_chown := ch; o_utime := ut; o_mode := mo |}, wi).
+(* options, wildcards flag, include patterns, exclude patterns *)
+Definition dec_copts (s : sx) : option (copts * bool * list bytes * list bytes) :=
+  match s with
+  | SL [fl; wi; ar; dc; ch; ut; mo] =>
+    x <- dec_copts7 fl wi ar dc ch ut mo ;; Some (x, [], [])
+  | SL [fl; wi; ar; dc; ch; ut; mo; SL inc; SL exc] =>
+    x <- dec_copts7 fl wi ar dc ch ut mo ;; i <- omap sx_B inc ;; e <- omap sx_B exc ;; Some (x, i, e)
   | _ => None
+  end.
+
+(* single-pattern results of the real matcher: ((cleanedPattern path bool) ...) *)
+Definition dec_pm (s : sx) : option (bytes * bytes * bool) :=
+  match s with SL [SB p; SB q; b] => b' <- sx_bool b ;; Some (p, q, b') | _ => None end.
+Fixpoint tbl_pmatch (t : list (bytes * bytes * bool)) (P q : bytes) : bool :=
+  match t with
+  | [] => false
+  | (p', q', b) :: r => if bytes_eqb p' P && bytes_eqb q' q then b else tbl_pmatch r P q
+  end.
+(* newCopier: matchers from the pattern lists (None = patternmatcher.New failed) *)
+Definition mk_selector (tbl : list (bytes * bytes * bool)) (inc exc : list bytes) : option selector :=
+  match mk_cfg inc exc with
+  | Some cf => Some {| sl_inc := sel_inc (tbl_pmatch tbl) cf; sl_exc := sel_exc (tbl_pmatch tbl) cf |}
+  | None => None
   end.
 
 Definition dec_matches (s : sx) : option (option (list bytes)) :=
@@ -177,18 +197,18 @@ Definition copy_fuel : nat := 64.
 Definition run_1404 (input impl : sx) : sx :=
   match input, impl with
   | SL [SL ops; SB sroot; SB src; SB droot; SB dst; o],
-    SL [_; SL sb; ms; SN err; SL sa; SL [SN di0; SN di1]] =>
-    match dec_copts o, dec_matches ms, run_ops (ctx_init, fs_init) ops [] with
-    | Some (opts, wild), Some matches, Some (f, rs) =>
+    SL [_; SL sb; ms; SN err; SL sa; SL [SN di0; SN di1]; SL pt] =>
+    match dec_copts o, dec_matches ms, run_ops (ctx_init, fs_init) ops [], omap dec_pm pt with
+    | Some (opts, wild, inc, exc), Some matches, Some (f, rs), Some tbl =>
       let m := if wild then match matches with Some l => Some l | None => Some [] end else None in
-      let '(s', res) := copy_top copy_fuel ctx_init opts sroot src droot dst m (cst_init f) in
+      let '(s', res) := copy_top copy_fuel ctx_init opts (mk_selector tbl inc exc) sroot src droot dst m (cst_init f) in
       let code := match res with inl _ => 0 | inr 4 => 9 | inr _ => 1 end%N in
       let model := SL [SL rs; enc_snapshot (snapshot_from f 1); ms; SN code;
-                       enc_snapshot (snapshot_from (s_fs s') 1); SL [SN di0; SN di1]] in
+                       enc_snapshot (snapshot_from (s_fs s') 1); SL [SN di0; SN di1]; SL pt] in
       let rel := match droot with a :: r => if N.eqb a sep then r else droot | [] => [] end in
       let ok := outside_unchanged rel sb sa && N.eqb di0 di1 && negb (N.eqb di0 0) && N.leb err 1 in
       verdict model impl ok (SL [SN (if outside_unchanged rel sb sa then 0 else 1); SN di0; SN di1; SN err])
-    | _, _, _ => v_malformed
+    | _, _, _, _ => v_malformed
     end
   | _, _ => v_malformed
   end.
